@@ -234,6 +234,11 @@ func Execute(t *testing.T, plan *Plan) *Result {
 			HashSecret(s)
 		}
 	}
+	for _, st := range plan.Steps {
+		if st.Op == "client_change" && strings.HasPrefix(st.V, "rotate_secret:") {
+			HashSecret(strings.TrimPrefix(st.V, "rotate_secret:")) // the hash cache must not decide how much entropy a run draws
+		}
+	}
 	ent := NewEntropyStream(plan.Seed)
 	oldReader := rand.Reader
 	rand.Reader = ent
@@ -428,7 +433,7 @@ func authValid(cs *ClientSpec, variant string) bool {
 	if cs.Public {
 		// public clients are identified without a secret: whatever secret accompanies the id is irrelevant
 		switch variant {
-		case "none", "unknown_client", "bad_urlencoding", "as_other":
+		case "none", "unknown_client", "bad_urlencoding", "as_other", "as_other_query":
 			return false
 		case "split":
 			variant = "ok"
@@ -531,6 +536,16 @@ func (r *Run) applyAuth(cs *ClientSpec, variant string, form url.Values) *Basic 
 		if secret == cs.Secret {
 			secret = "not-" + cs.Secret
 		}
+	case "as_other_query":
+		// as "as_other", but the foreign client_id travels in the URL's query string of the POST, not in its body
+		for _, o := range r.W.K.Clients {
+			if o.ID != cs.ID && !o.Public && o.Secret != "" && (!o.OIDC || o.AuthMethod == "client_secret_basic") {
+				form.Set("_query:client_id", cs.ID)
+				return &Basic{User: o.ID, Pass: o.Secret}
+			}
+		}
+		form.Set("_query:client_id", cs.ID)
+		return &Basic{User: cs.ID, Pass: "no-other-confidential-client"}
 	case "as_other":
 		// valid credentials of ANOTHER confidential client in the Authorization header, this client's id in the body: the caller
 		// proved to be the other client, not this one - nothing may be processed in this client's name
